@@ -325,8 +325,14 @@ def run(chk, tier):
     rnd = random.Random(chk.seed)
     quick = tier == "quick"
 
-    # ---- 1. the models -------------------------------------------------------------------------------------
-    r = vlib.tlc("CNames", "CNames" if quick else "CNamesDeep", workers=vlib.NCPU, timeout=900)
+    # ---- 1. the models (run side by side; the libraries for the other limits are generated meanwhile) -------
+    pool = concurrent.futures.ThreadPoolExecutor(max_workers=8)
+    f_names = pool.submit(vlib.tlc, "CNames", "CNames" if quick else "CNamesDeep", workers=8 if quick else vlib.NCPU, timeout=1200)
+    f_dist = pool.submit(vlib.tlc, "CNames", "CNamesDistinct", workers=4, timeout=600)
+    f_libs = {i: pool.submit(build_libs, b, ("-Cidlen=%d" % i,)) for i in IDLENS if i != 30}
+    product, overrides, default_cfg, nmodel_cfgs = configurations(chk)
+    chosen = choose_quick(product, rnd, 16) if quick else list(product)
+    r = f_names.result()
     chk.add_tlc("CNames", r)
     if r.violated:
         chk.violation("CNames.tla violates %s" % r.violated, r.trace_text, key={"model": "CNames", "inv": r.violated})
@@ -334,16 +340,14 @@ def run(chk, tier):
     if len(model_rows) < 10:
         raise vlib.MachineryError("CNames.tla exported %d rows" % len(model_rows))
     # the statement itself, in the model: TLC shows the counterexample (hash of the full name is the only separator)
-    r2 = vlib.tlc("CNames", "CNamesDistinct", workers=vlib.NCPU, timeout=600)
+    r2 = f_dist.result()
     chk.add_tlc("CNamesDistinct", r2)
     if r2.violated:
         chk.violation("CNames.tla: the code as transcribed violates %s (two globals, one C name)" % r2.violated, r2.trace_text,
                       key={"model": "CNames", "inv": r2.violated})
-    product, overrides, default_cfg, nmodel_cfgs = configurations(chk)
-    chosen = choose_quick(product, rnd, 16) if quick else list(product)
 
     # ---- 2. programs and their behaviours (AldorSem) ---------------------------------------------------------
-    nprog = 14 if quick else 44
+    nprog = 12 if quick else 44
     progs = progen.generate((chk.seed + 16) % 1000003, nprog)
     colp = cn.collision_program()
     fam = progcheck.Family(chk, progs + [colp], "gen", workers=vlib.NCPU, timeout=1500)
@@ -410,11 +414,23 @@ def run(chk, tier):
         default_imports[v[0]["id"]] = link_strings(read_c(res), "fiImportGlobal")
         if verdict is None:
             kept.append(v)
+        elif verdict[0] == "link-fail":
+            # the compiler accepted the program and gcc rejects the C it generated under the default options, which are one
+            # of the configurations of the statement
+            chk.violation("%s under the default options: program %s (%s names) %s" % (verdict[0], v[0]["id"], v[1], verdict[1]),
+                          {"program_id": v[0]["id"], "style": v[1], "got_err": res["err"][:2500], "got_out": res["out"][:1500],
+                           "source": render.render(v[0], v[2])},
+                          key={"kind": verdict[0], "sig": verdict[1], "route": "shipped", "opts": [], "style": v[1]})
         else:
             excluded.append({"program": v[0]["id"], "style": v[1], "default_options_run": list(verdict)})
     chk.traces += len(variants)
     if len(kept) * 2 < len(variants):
-        raise vlib.MachineryError("more than half of the programs do not conform under the default options: %s" % excluded[:3])
+        # nearly nothing works under the default options: the C route as a whole is broken (names of the run-time interface,
+        # the generated declarations ...): that is a violation of C16's first clause, not a weakness of single programs
+        kinds = sorted(set(e["default_options_run"][0] for e in excluded))
+        chk.violation("%d of %d programs do not show the specified behaviour under the DEFAULT C options (%s)" % (len(excluded), len(variants), kinds),
+                      {"excluded": excluded[:10], "first_err": base_res[0]["err"][:2500], "first_out": base_res[0]["out"][:1500]},
+                      key={"kind": "default-options-broken", "kinds": kinds})
     variants = kept
     chk.extra["excluded_nonconforming_under_default_options"] = excluded
     marks["baseline"] = time.time() - t_start
@@ -427,11 +443,11 @@ def run(chk, tier):
         lib_extra = [("-Cstandard", "-Csmax=50", "-Clines"), ("-Cold", "-Csmax=5", "-Cno-lines"), ("-Cold", "-Csmax=0", "-Clines"),
                      ("-Cstandard", "-Csmax=1", "-Cno-lines")]
     with concurrent.futures.ThreadPoolExecutor(max_workers=3) as ex:
-        futs = {i: ex.submit(build_libs, b, ("-Cidlen=%d" % i,)) for i in lib_idlens}
         futs2 = {o: ex.submit(build_libs, b, o) for o in lib_extra}
-        for i, f in futs.items():
+        for i, f in f_libs.items():
             libs[i] = f.result()
         extra_libs = {o: f.result() for o, f in futs2.items()}
+    pool.shutdown()
     lib_files = 0
     for o, info in list(libs.items()) + list(extra_libs.items()):
         lib_files += info["files"]
@@ -447,8 +463,13 @@ def run(chk, tier):
     for vi, (p, style, names, real) in enumerate(variants):
         cfgs = chosen
         if style == "crafted" and quick:
-            cfgs = [c for c in chosen if c["smax"] in (0, 50)][:6] + [c for c in chosen if c["idlen"] == 30][:2]
+            cfgs = [c for c in chosen if c["smax"] in (0, 50)][:6]
+            cfgs += [c for c in chosen if c["idlen"] == 30 and c not in cfgs][:2]
         for c in cfgs:
+            # a unit split at every statement (-Csmax=1) becomes several hundred files: the quick tier does that for two
+            # programs and -Csmax=5 for five (the thorough tier for all)
+            if quick and ((c["smax"] == 1 and vi >= 2) or (c["smax"] == 5 and vi >= 5)):
+                continue
             # against the shipped archives a limit other than the default fails at start-up (recorded finding): the quick
             # tier keeps that visible with three programs and spends the rest on libraries regenerated with the same limit
             if c["idlen"] == 30 or not quick or vi < 3 or style == "crafted":
@@ -572,6 +593,14 @@ def run(chk, tier):
     for i in range(0, len(items), 400):
         events.append({"ev": "Spell", "items": items[i:i + 400]})
 
+    if os.environ.get("VERIF_C16_CORRUPT"):
+        # self-test of the binding: corrupt one recorded field (the C name of one entity becomes that of another)
+        for e in events:
+            if e["ev"] == "Names":
+                ext = [bd for bd in e["binds"] if bd[0] == "extern" and bd[1] != bd[2]] or [bd for bd in e["binds"] if bd[0] == "extern"]
+                if len(ext) >= 2:
+                    ext[1][2] = ext[0][2]
+                    break
     # ---- 8. TLC judges the recorded names ---------------------------------------------------------------------
     conflicts, drifts, tend = [], [], None
     if events:
